@@ -449,8 +449,10 @@ def catalogue(uni, which="quick"):
     # C13/C14: numerators ~1e10 over the prime 999999937 < 1e9: coordinates are stored unchanged,
     # crossing parameters have denominators far above 1e9
     D = 999999937
-    out.append(Real(uni, name="poly-frac-big", numtype="frac", ctor="vertices", rot=2,
-                    L2=Affine(F(1000003417, D), F(70001111, D), F(1234567891, D), F(-110000017, D), F(1030000031, D), F(-987654321, D))))
+    N_ = uni.N
+    bx = [F((k - N_ // 2) * 10**10 + 1234567 * (k * k % 7 + 1) + 89 * k, D) for k in range(N_ + 1)]
+    by = [F((k - N_ // 2) * 10**10 + 7654321 * (k * k % 5 + 1) + 97 * k, D) for k in range(N_ + 1)]
+    out.append(Real(uni, name="poly-frac-big", numtype="frac", ctor="vertices", rot=2, xs=bx, ys=by))
     # C12/C06: a drawing of about one millimetre given in metres (the universe is ~15 units wide)
     out.append(Real(uni, name="sim-mmu-float", numtype="float", ctor="ctrlpoints", post=Affine(F(1, 15000), 0, 0, 0, F(1, 15000), 0)))
     out.append(Real(uni, name="sim-mmu-frac", numtype="frac", ctor="vertices", post=Affine(F(1, 15000), 0, 0, 0, F(1, 15000), 0)))
